@@ -562,7 +562,7 @@ func c20() []string {
 	}
 	projects := [][]tk{
 		{{"build", "Build the bindings for C#", nil, []string{"echo out-build", "echo err-build 1>&2"}}},
-		{{"zeta", "", nil, []string{"echo z"}}, {"alpha", "First", []string{"zeta"}, []string{"echo a1", "echo a2"}}},
+		{{"zeta", "", []string{"\"dep.txt\""}, []string{"echo z"}}, {"alpha", "First", []string{"zeta"}, []string{"echo a1", "echo a2"}}},
 		{{"default", "The default", nil, []string{"echo dflt"}}, {"other", "Other", nil, nil}},
 		{{"b", "bee", nil, []string{"echo b"}}, {"a", "ay", []string{"b"}, []string{"echo a"}}, {"c", "", []string{"a", "b"}, []string{"echo c; echo c2"}}},
 	}
@@ -599,6 +599,7 @@ func c20() []string {
 			base, _ := os.MkdirTemp("", "fsprobe-")
 			base, _ = filepath.EvalSymlinks(base)
 			os.WriteFile(filepath.Join(base, "spokfile"), []byte(text), 0o644)
+			os.WriteFile(filepath.Join(base, "dep.txt"), []byte("dep"), 0o644)
 			os.Setenv("HOME", base)
 			os.Chdir(base)
 			desc := fmt.Sprintf("project %d mode %s", pi, mode)
@@ -648,7 +649,9 @@ func c20() []string {
 					for _, t := range proj {
 						if t.name == n {
 							for _, d := range t.deps {
-								visit(d)
+								if !strings.HasPrefix(d, "\"") { // a file dependency, not a task
+									visit(d)
+								}
 							}
 						}
 					}
